@@ -223,7 +223,10 @@ class Scheduler:
         # initial choice: which thread starts (point -1 is not a preemption); default thread `first`
         self.cur = first
         self.go[first].release()
-        self.main_wait.acquire()        # until all done or deadlock
+        if not self.main_wait.acquire(timeout=120):   # until all done or deadlock
+            self.active = False
+            raise HarnessError("scheduler: execution did not finish within 120 s (points so far: %d, last: %r)"
+                               % (len(self.points), self.points[-3:]))
         self.main_wait.release()
         self.active = False
         if not self.deadlock:
